@@ -256,6 +256,9 @@ mod rayon;
 mod state;
 pub mod style;
 mod term_like;
+#[cfg(feature = "verif-hooks")]
+#[doc(hidden)]
+pub mod verif_sync;
 
 pub use crate::draw_target::ProgressDrawTarget;
 pub use crate::format::{
